@@ -30,6 +30,8 @@ def run(chk):
     core_rules.division_guards(chk, "C10")
     core_rules.sizing_loop_cap(chk, "C10")
     core_rules.writable_history_views(chk, "C10")
+    n = core_rules.row_hint_rules(chk, "C10")  # a wrong row hint makes a well-formed run read the NaN row Backtest prepends (or another date's prices) and raise
+    chk.floor_count("C08.R4:row hints passed to update()", n, 4)
     from .algo_equiv import check_equiv
     from .c14 import random_sample
     random_sample(chk)  # sampling never asks for more names than are tradable (random.sample would raise)
